@@ -5,6 +5,7 @@ package main
 // definitions, axioms); an obligation refers to a prefix of that list.
 
 import (
+	"regexp"
 	"fmt"
 	"math/big"
 	"sort"
@@ -494,8 +495,12 @@ func (c *Ctx) Axiom(t *Term) {
 	if t.S == "true" {
 		return
 	}
-	c.cmds = append(c.cmds, "(assert "+t.S+")")
+	c.cmds = append(c.cmds, "(assert "+t.S+")"+axiomMark)
 }
+
+const axiomMark = " ;axiom"
+
+var specSymRe = regexp.MustCompile(`spec![A-Za-z0-9_]+`)
 
 func (c *Ctx) Raw(cmd string) { c.cmds = append(c.cmds, cmd) }
 
@@ -538,8 +543,38 @@ func (c *Ctx) Query(mark int, hyps []*Term, goal *Term, getValues []string) stri
 	var b strings.Builder
 	b.WriteString("(set-option :produce-models true)\n(set-logic ALL)\n")
 	b.WriteString(prelude)
+	// quantified axioms over spec functions are only included when the rest of the query
+	// mentions one of their spec functions: an unused quantifier turns the vacuity covers
+	// (expected sat) into "unknown" and slows every query of the unit
+	var rest strings.Builder
+	for _, cmd := range c.cmds[:mark] {
+		if !strings.HasSuffix(cmd, axiomMark) && !strings.HasPrefix(cmd, "(declare-fun ") {
+			rest.WriteString(cmd)
+			rest.WriteByte('\n')
+		}
+	}
+	for _, h := range hyps {
+		rest.WriteString(h.S)
+		rest.WriteByte('\n')
+	}
+	if goal != nil {
+		rest.WriteString(goal.S)
+	}
+	restS := rest.String()
 	var body strings.Builder
 	for _, cmd := range c.cmds[:mark] {
+		if strings.HasSuffix(cmd, axiomMark) {
+			used := false
+			for _, sym := range specSymRe.FindAllString(cmd, -1) {
+				if strings.Contains(restS, sym+" ") || strings.Contains(restS, sym+")") {
+					used = true
+					break
+				}
+			}
+			if !used && specSymRe.MatchString(cmd) {
+				continue
+			}
+		}
 		body.WriteString(cmd)
 		body.WriteByte('\n')
 	}
